@@ -130,33 +130,36 @@ func (r *Restarter) handleChild(conn *net.UnixConn) {
 		default:
 		}
 
-		msg, err := readMessage(conn)
-		switch err {
-		case nil:
+		msgs, err := readMessages(conn)
+		// every frame of the read is a request of its own
+		for _, msg := range msgs {
 			logger.Debugf("Receive message %v from child", msg)
-		default:
+			r.dispatch(conn, msg)
+		}
+		if err != nil {
 			if ne, ok := err.(*net.OpError); ok && ne.Err == io.EOF {
 				return
 			}
 			logger.Warnf("Read msg from child failed: %v", err)
-			continue
 		}
-
-		var handle func(from *net.UnixConn, data []byte)
-		switch msg.Type {
-		case shutdownLocalConfReq:
-			handle = r.handleShutdownLocalConfRequest
-		case shutdownAdminReq:
-			handle = r.handleShutdownAdminRequest
-		case drainListenersReq:
-			handle = r.handleDrainListenersRequest
-		case terminateReq:
-			handle = r.handleTerminateRequest
-		default:
-			handle = r.handleUnknownRequest
-		}
-		handle(conn, msg.Data)
 	}
+}
+
+func (r *Restarter) dispatch(conn *net.UnixConn, msg *message) {
+	var handle func(from *net.UnixConn, data []byte)
+	switch msg.Type {
+	case shutdownLocalConfReq:
+		handle = r.handleShutdownLocalConfRequest
+	case shutdownAdminReq:
+		handle = r.handleShutdownAdminRequest
+	case drainListenersReq:
+		handle = r.handleDrainListenersRequest
+	case terminateReq:
+		handle = r.handleTerminateRequest
+	default:
+		handle = r.handleUnknownRequest
+	}
+	handle(conn, msg.Data)
 }
 
 func (r *Restarter) handleShutdownLocalConfRequest(from *net.UnixConn, data []byte) {
